@@ -226,6 +226,7 @@ pub mod native {
                 None => break,
             }
         }
+        println!("REPLAY-OBLIGATIONS unit={unit} names={}", names.join(","));
         println!("REPLAY-SUMMARY unit={unit} mode={mode} evaluations={evals} accepted={accepted} obligations_exercised={} failing={}", names.len(), seen.len());
         seen.len() as i32
     }
@@ -419,8 +420,11 @@ pub fn replay(unit: &str, bytes: Option<Vec<Vec<u8>>>) -> i32 {
     use native::*;
     macro_rules! go {
         ($f:path) => {
-            match bytes { Some(v) => run_bytes(unit, $f, v), None => run_grid(unit, $f, 2_000_000) }
+            match bytes { Some(v) => run_bytes(unit, $f, v), None => run_grid(unit, $f, std::env::var("VERIF_REPLAY_LIMIT").ok().and_then(|s| s.parse().ok()).unwrap_or(2_000_000)) }
         };
+    }
+    if bytes.is_none() {
+        if let Some(rc) = replay_bounded(unit) { return rc; }
     }
     match unit {
         "k_c03_tagenv_add" => go!(contract_tagenv_add),
@@ -451,4 +455,161 @@ pub fn hook_int_type_token(min: Option<i128>, max: Option<i128>, ext: bool) -> S
 #[cfg(not(kani))]
 pub fn hook_assign_enumeral_numbers(root: &[Option<i128>], additions: &[Option<i128>]) -> (Vec<i128>, Vec<i128>) {
     crate::lexer::verif_assign_enumeral_numbers(root, additions)
+}
+
+// ------------------------------------------------------------------------------------------------
+// C03 — ToplevelDefinition::apply_tagging_environment: WHERE the §31.2.7 rule is applied.
+// Kani: singleton component lists only (Kani 0.68 mis-strides slices of i128-padded types, DESIGN §1.2);
+// natively: lists of 0..=3 components as a bounded stand-in.
+// ------------------------------------------------------------------------------------------------
+fn tag_with<C: Ctx>(cx: &mut C) -> (Option<AsnTag>, usize) {
+    // 0 = untagged, 1 = no keyword, 2 = IMPLICIT, 3 = EXPLICIT
+    let k = cx.choose(4);
+    let t = match k {
+        0 => None,
+        1 => Some(AsnTag { environment: TaggingEnvironment::Automatic, tag_class: TagClass::ContextSpecific, id: 1 }),
+        2 => Some(AsnTag { environment: TaggingEnvironment::Implicit, tag_class: TagClass::Private, id: 2 }),
+        _ => Some(AsnTag { environment: TaggingEnvironment::Explicit, tag_class: TagClass::Application, id: 3 }),
+    };
+    (t, k)
+}
+/// what §31.2.7 makes of a tag written with keyword-state `k` in a module whose default is `env`
+fn expected_env(env: TaggingEnvironment, k: usize) -> TaggingEnvironment {
+    match k { 2 => TaggingEnvironment::Implicit, 3 => TaggingEnvironment::Explicit, _ => env }
+}
+fn tag_ok(t: &Option<AsnTag>, k: usize, env: TaggingEnvironment) -> bool {
+    match (t, k) {
+        (None, 0) => true,
+        (Some(t), 1) => t.environment == expected_env(env, 1) && t.tag_class == TagClass::ContextSpecific && t.id == 1,
+        (Some(t), 2) => t.environment == TaggingEnvironment::Implicit && t.tag_class == TagClass::Private && t.id == 2,
+        (Some(t), 3) => t.environment == TaggingEnvironment::Explicit && t.tag_class == TagClass::Application && t.id == 3,
+        _ => false,
+    }
+}
+
+pub fn contract_apply_tagenv<C: Ctx>(cx: &mut C, max_len: usize) {
+    use crate::intermediate::types::*;
+    let env = any_tagenv(cx);
+    let kind = cx.choose(4); // 0 SEQUENCE, 1 SET, 2 CHOICE, 3 primitive
+    let (top_tag, top_k) = tag_with(cx);
+    let n = cx.choose(max_len + 1);
+    let mut ks = [0usize; 4];
+    let ty = match kind {
+        0 | 1 => {
+            let mut members = Vec::new();
+            let mut i = 0;
+            while i < n {
+                let (t, k) = tag_with(cx);
+                ks[i] = k;
+                members.push(SequenceOrSetMember { name: String::new(), tag: t, ty: ASN1Type::Null, optionality: Optionality::Required, is_recursive: false, constraints: Vec::new() });
+                i += 1;
+            }
+            let s = SequenceOrSet { components_of: Vec::new(), extensible: None, constraints: Vec::new(), members };
+            if kind == 0 { ASN1Type::Sequence(s) } else { ASN1Type::Set(s) }
+        }
+        2 => {
+            let mut options = Vec::new();
+            let mut i = 0;
+            while i < n {
+                let (t, k) = tag_with(cx);
+                ks[i] = k;
+                options.push(ChoiceOption { name: String::new(), tag: t, ty: ASN1Type::Null, constraints: Vec::new(), is_recursive: false });
+                i += 1;
+            }
+            ASN1Type::Choice(Choice { extensible: None, options, constraints: Vec::new() })
+        }
+        _ => ASN1Type::Null,
+    };
+    let mut tld = ToplevelDefinition::Type(ToplevelTypeDefinition { comments: String::new(), tag: top_tag, name: String::new(), ty, parameterization: None, module_header: None });
+    tld.apply_tagging_environment(&env);
+    if let ToplevelDefinition::Type(t) = &tld {
+        vob!(cx, "C03.apply_tagenv.type_assignment_tag", tag_ok(&t.tag, top_k, env));
+        match &t.ty {
+            ASN1Type::Sequence(s) | ASN1Type::Set(s) => {
+                vob!(cx, "C03.apply_tagenv.no_component_lost", s.members.len() == n);
+                let mut i = 0;
+                while i < n && i < s.members.len() {
+                    cx.note("component", i);
+                    vob!(cx, "C03.apply_tagenv.sequence_and_set_component_tags", tag_ok(&s.members[i].tag, ks[i], env));
+                    i += 1;
+                }
+            }
+            ASN1Type::Choice(c) => {
+                vob!(cx, "C03.apply_tagenv.no_alternative_lost", c.options.len() == n);
+                let mut i = 0;
+                while i < n && i < c.options.len() {
+                    cx.note("alternative", i);
+                    vob!(cx, "C03.apply_tagenv.choice_alternative_tags", tag_ok(&c.options[i].tag, ks[i], env));
+                    i += 1;
+                }
+            }
+            _ => {}
+        }
+    } else {
+        vob!(cx, "C03.apply_tagenv.stays_a_type_definition", false);
+    }
+}
+pub fn contract_apply_tagenv_singleton<C: Ctx>(cx: &mut C) { contract_apply_tagenv(cx, 1) }
+pub fn contract_apply_tagenv_lists<C: Ctx>(cx: &mut C) { contract_apply_tagenv(cx, 3) }
+
+// ------------------------------------------------------------------------------------------------
+// C07 — named-bit lists: `ASN1Value::link_with_type` on `BitStringNamedBits` against a BIT STRING with named bits
+// (-> bit_string_value_from_named_bits).  Bounded stand-in (native): up to 3 named bits numbered from 0..=5.
+// ------------------------------------------------------------------------------------------------
+pub fn contract_named_bits<C: Ctx>(cx: &mut C) {
+    use crate::intermediate::types::*;
+    const NAMES: [&str; 3] = ["a", "b", "c"];
+    let n = 1 + cx.choose(3);
+    let mut numbers = [0i128; 3];
+    let mut i = 0;
+    while i < n {
+        numbers[i] = cx.choose(6) as i128;
+        i += 1;
+    }
+    // named bits must carry distinct numbers (X.680 §22.4)
+    let distinct = (n < 2 || numbers[0] != numbers[1]) && (n < 3 || (numbers[0] != numbers[2] && numbers[1] != numbers[2]));
+    if !cx.assume(distinct) { return; }
+    let mut listed = [false; 3];
+    let mut i = 0;
+    while i < n { listed[i] = cx.any_bool(); i += 1; }
+    let distinguished: Vec<DistinguishedValue> = (0..n).map(|i| DistinguishedValue { name: NAMES[i].into(), value: numbers[i] }).collect();
+    let names: Vec<String> = (0..n).filter(|i| listed[*i]).map(|i| NAMES[i].to_string()).collect();
+    let ty = ASN1Type::BitString(BitString { constraints: Vec::new(), distinguished_values: Some(distinguished) });
+    let mut v = ASN1Value::BitStringNamedBits(names);
+    let tlds = std::collections::BTreeMap::new();
+    let r = v.link_with_type(&tlds, &ty, None);
+    vob!(cx, "C07.named_bits.links", r.is_ok());
+    let highest = (0..n).map(|i| numbers[i]).max().unwrap_or(0);
+    match &v {
+        ASN1Value::BitString(bits) => {
+            vob!(cx, "C07.named_bits.length_is_highest_bit_plus_one", bits.len() as i128 == highest + 1);
+            let mut ok = true;
+            for (pos, b) in bits.iter().enumerate() {
+                let want = (0..n).any(|i| listed[i] && numbers[i] == pos as i128);
+                ok = ok && *b == want;
+            }
+            vob!(cx, "C07.named_bits.bit_set_iff_its_name_is_listed", ok);
+        }
+        _ => { vob!(cx, "C07.named_bits.becomes_a_bit_string", false); }
+    }
+}
+
+// (A Kani harness over contract_apply_tagenv_singleton did not finish in 15 min — symbolic choice between the
+//  ASN1Type variants makes CBMC stall in the nested-union layout, DESIGN §1.2 — so this contract runs as a
+//  native bounded stand-in only.)
+
+#[cfg(not(kani))]
+pub fn hook_needs_unnesting(ty: &ASN1Type) -> bool { crate::generator::rasn::Rasn::needs_unnesting(ty) }
+
+#[cfg(not(kani))]
+pub fn replay_bounded(unit: &str) -> Option<i32> {
+    use native::*;
+    let limit = std::env::var("VERIF_REPLAY_LIMIT").ok().and_then(|s| s.parse().ok()).unwrap_or(2_000_000);
+    Some(match unit {
+        "b_c03_apply_tagenv_lists" => run_grid(unit, contract_apply_tagenv_lists, limit),
+        "b_c07_named_bits" => run_grid(unit, contract_named_bits, limit),
+        "b_c14_enumerated_parser" => run_grid(unit, crate::lexer::verif_hook_enumerated::contract_enumerated_parser_quick, limit),
+        "b_c14_enumerated_parser_full" => run_grid(unit, crate::lexer::verif_hook_enumerated::contract_enumerated_parser_full, limit),
+        _ => return None,
+    })
 }
